@@ -38,6 +38,8 @@ def run(ctx):
     ctx.rule("R08.c", "the sync's own writes (update in _sync_refs/_async_ref) happen inside a `with _syncing(...)` scope, and the setter reads the syncing set before deciding to drop a link", floor=3)
     ctx.rule("R08.d", "every reference is installed: in Parameter.__set__ the relink decision holds whenever _resolve_ref returned a reference (top-level disjunct `ref is not None`), "
                       "and the constructor records refs[name] = ref under exactly `ref is not None`", floor=2)
+    ctx.rule("R08.e", "_sync_refs re-resolves exactly the links one of whose dependencies matches one of the delivered events by (owner identity, name) -- decided by abstract "
+                      "interpretation on every non-empty event subset of a two-parameter source with three links (exhaustive for that configuration)", floor=1)
     ctx.not_decided += ["that the parameter equals the reference's resolved value after arbitrary source histories (needs execution)"]
 
     # ----------------------------------------------------------- R08.a
@@ -191,6 +193,62 @@ def run(ctx):
                      input="nested_refs: assign the same (mutated) container again -> newly contained sources are never watched")
     from checks.shared import ctor_records_every_ref
     ctor_records_every_ref(ctx, "R08.d")
+
+    # ----------------------------------------------------------- R08.e
+    import itertools
+    from engine.absint import Interp, Obj, Unsupported
+    from engine.loader import AnalysisError
+    sr = ctx.repo.method(PARAMETERS, "_sync_refs")
+    S, S2 = Obj("source"), Obj("other_source")
+    dep = {"x": Obj("dep_S_a", owner=S, name="a"), "y": Obj("dep_S_b", owner=S, name="b"), "z": Obj("dep_S2_a", owner=S2, name="a")}
+    refobj = {k: Obj("ref_" + k) for k in dep}
+    all_events = [("a", Obj("event_a", obj=S, name="a")), ("b", Obj("event_b", obj=S, name="b"))]
+    n_cases, bad = 0, []
+    for r in (1, 2):
+        for combo in itertools.permutations(all_events, r):
+            evs = [e for _, e in combo]
+            got = {}
+
+            def hook(fn, args, kwargs):
+                if fn == "resolve_ref":
+                    for k, ro in refobj.items():
+                        if args and args[0] is ro:
+                            return [dep[k]]
+                    return []
+                if fn == "resolve_value":
+                    for k, ro in refobj.items():
+                        if args and args[0] is ro:
+                            return Obj("value_" + k)
+                    return Obj("value_?")
+                if fn in ("inspect.isgeneratorfunction", "iscoroutinefunction"):
+                    return False
+                if fn in ("edit_constant", "_syncing"):
+                    return Obj("scope")
+                if fn.endswith(".update") and fn.startswith("self_"):
+                    got.update(args[0] if args and isinstance(args[0], dict) else {})
+                    return None
+                return NotImplemented
+            inst = Obj("target", _param__private=Obj("private", refs={k: refobj[k] for k in ("x", "y", "z")}))
+            ns = Obj("ns", self=inst)
+            it = Interp(ctx.hier, call_hook=hook, globals={"Skip": Obj("Skip"), "Undefined": Obj("Undefined")})
+            try:
+                outs = it.run_all(sr, {"self_": ns, "events": evs})
+            except Unsupported as e:
+                raise AnalysisError("absint cannot interpret _sync_refs: %s -- R08.e cannot decide" % e)
+            n_cases += 1
+            for o in outs:
+                if o.imprecise:
+                    raise AnalysisError("absint imprecise on _sync_refs (%s): %s -- R08.e cannot decide" % ([n for n, _ in combo], o.notes[:2]))
+            want = {"x"} if [n for n, _ in combo] == ["a"] else ({"y"} if [n for n, _ in combo] == ["b"] else {"x", "y"})
+            if set(got) != want:
+                bad.append(([n for n, _ in combo], sorted(got), sorted(want)))
+    ctx.abstract_cases += n_cases
+    if bad:
+        ctx.fail("R08.e", sr, sr.node, "with events %s from one source _sync_refs re-resolves the links %s, specification %s: a link whose source parameter changed in the same batch "
+                                       "as another is skipped and keeps a stale value" % bad[0], key=sr.qualname + "::event-matching",
+                 input="t = T(x=s.param.a, y=s.param.b); s.param.update(a=2, b=2) -> t.x stays stale")
+    else:
+        ctx.ok("R08.e", sr, sr.node, "%d/%d event sets: exactly the links with a matching dependency are re-resolved (a link on another owner with the same name is not)" % (n_cases, n_cases))
 
     # the scope that marks the sync's own writes must itself be exception safe
     # (an instance of R05.a/R05.b on the syncing set): a leaked marker makes every
